@@ -179,21 +179,23 @@ class VariableBoundVisitor(ModelVisitor):
                 
             if lhs_bounds is not None and rhs_bounds is not None:
                 # Two-sided relationship involving fields
-                propagator = self.lhsvar_rhsvar_propagator(
-                    lhs_bounds, 
-                    e.op, 
-                    rhs_bounds)
-                pass
+                # Operands of different signedness are compared as unsigned 
+                # values: the (signed) range of one says nothing about the other
+                if lhs_fm.is_signed == rhs_fm.is_signed:
+                    propagator = self.lhsvar_rhsvar_propagator(
+                        lhs_bounds, 
+                        e.op, 
+                        rhs_bounds)
             elif lhs_bounds is not None:
                 # left-hand field and no right-hand field
-                if rhs_is_nonrand:
+                if rhs_is_nonrand and not self._signed_vs_unsigned(lhs_fm, e.rhs):
                     propagator = self.lhsvar_rhsnre_propagator(
                         lhs_bounds, 
                         e.op, 
                         e.rhs)
             elif rhs_fm is not None:
                 # right-hand field and no left-hand field
-                if lhs_is_nonrand:
+                if lhs_is_nonrand and not self._signed_vs_unsigned(rhs_fm, e.lhs):
                     propagator = self.lhsnre_rhsvar_propagator(
                         e.lhs, 
                         e.op, 
@@ -202,6 +204,14 @@ class VariableBoundVisitor(ModelVisitor):
             if propagator is not None:
                 self.propagators.append(propagator)
                 
+    def _signed_vs_unsigned(self, fm, other_e):
+        """A signed field compared with an unsigned operand is compared 
+        as an unsigned value: its negative values rank above all others"""
+        try:
+            return fm.is_signed and not other_e.is_signed()
+        except Exception:
+            return False
+        
     def lhsvar_rhsvar_propagator(self,
                     lhs_bounds,
                     op,
